@@ -743,6 +743,10 @@ func checkC04(c *Ctx) Meta {
 		})
 	}
 	c04Enc(c, t, fns)
+	c.Rule("C04-REKEY", "after a private passphrase change nothing stays sealed under the revoked passphrase: the change re-encrypts the private crypto key of every keystore (not only the first) inside its transaction", 1)
+	checkRekeyAllKeystores(c, "C04-REKEY")
+	c.Rule("C04-RAND", "key material is complete: every read of randomness into a key or salt in the snacl/keystore packages is a complete read (io.ReadFull / crypto/rand.Read), never a bare Reader.Read whose short count would leave the tail of the key zero", 3)
+	c04Rand(c)
 	return Meta{
 		Explanation: "An information-flow policy evaluated on backward slices: sources are named from the repository (passphrase/seed parameters of exported entry points and request fields, key-object types, generator calls, plaintext of private-hierarchy Decrypt), the slice is cut at Encrypt and at the public-key/hash declassifiers, parameters of helpers are resolved at every call site and callee results are followed (bounded depth 5). Sinks: every Bucket.Put value, every log argument, every formatted message, every keystore-file field, API file write and response field. Plus the key-hierarchy rule for every Encrypt of a secret and a use-after-Zero typestate on encrypting keys.",
 		NotDecided:  "that ciphertext hides plaintext; bytes leveldb itself writes beyond what Put receives; flows through reflection or the chain library; secrets revealed by error values of external callees (assumed label-free).",
@@ -876,6 +880,15 @@ func checkUseAfterZero(c *Ctx, rule, key string, fn *ssa.Function, enc *ssa.Call
 		if callName(cl) == "Zero" && callRecv(cl) != nil && same(callRecv(cl)) {
 			zeroing = true
 		}
+		// zero.Bytes(k.Bytes()): Bytes() of the key types returns the key's own array, so wiping the
+		// returned slice wipes the key
+		if strings.Contains(calleeID(cl), "/zero.") && len(cl.Call.Args) > 0 {
+			for x := range backSlice(cl.Call.Args[0]).vals {
+				if bc, isC := x.(*ssa.Call); isC && callName(bc) == "Bytes" && callRecv(bc) != nil && same(callRecv(bc)) && bytesAliasesReceiver(c, bc) {
+					zeroing = true
+				}
+			}
+		}
 		if g := cl.Call.StaticCallee(); g != nil && strings.HasPrefix(pkgOf(g), pkgKeystore) {
 			for i, a := range cl.Call.Args {
 				if same(a) && zeroesParam(c, g, i, 0) {
@@ -903,5 +916,88 @@ func checkUseAfterZero(c *Ctx, rule, key string, fn *ssa.Function, enc *ssa.Call
 		c.Bad(rule, key, c.Pos(bad.Pos()), "the encrypting key can have been zeroed before this Encrypt (Zero() on the same key object, directly or in a callee, on a path that leads here — e.g. a shared key zeroed inside a loop over keystores): the data is then sealed under an all-zero key and readable without any passphrase")
 	} else {
 		c.OK(rule, key, c.Pos(enc.Pos()), "no Zero() of the encrypting key can precede the Encrypt")
+	}
+}
+
+// bytesAliasesReceiver: every implementation of this Bytes() call returns a slice of the receiver's
+// own storage (not a copy).
+func bytesAliasesReceiver(c *Ctx, call *ssa.Call) bool {
+	impls := c.implementations(call)
+	if len(impls) == 0 {
+		return false
+	}
+	for _, f := range impls {
+		if len(f.Blocks) == 0 || len(f.Params) == 0 {
+			return false
+		}
+		alias := false
+		for _, ret := range returnsOf(f) {
+			for _, r := range ret.Results {
+				valueOrigins(f, r, func(root ssa.Value) {
+					if sl, ok := root.(*ssa.Slice); ok {
+						if backSlice(sl.X).has(f.Params[0]) {
+							alias = true
+						}
+					}
+				})
+			}
+		}
+		if !alias {
+			return false
+		}
+	}
+	return true
+}
+
+// c04Rand: C04-RAND.
+func c04Rand(c *Ctx) {
+	rule := "C04-RAND"
+	n := 0
+	for fn := range c.AllFuncs {
+		p := pkgOf(fn)
+		if !strings.HasPrefix(p, pkgKeystore) {
+			continue
+		}
+		ord := 0
+		allInstrs(fn, func(in ssa.Instruction) {
+			cl, ok := in.(*ssa.Call)
+			if !ok {
+				return
+			}
+			id := calleeID(cl)
+			isReaderRead := cl.Call.IsInvoke() && cl.Call.Method.Name() == "Read" && strings.HasSuffix(cl.Call.Value.Type().String(), "io.Reader")
+			switch {
+			case id == "io.ReadFull" || id == "io.ReadAtLeast" || id == "crypto/rand.Read":
+				n++
+				ord++
+				c.OK(rule, fmt.Sprintf("%s:random-read#%d", FuncName(fn), ord), c.Pos(cl.Pos()), shortID(id)+" (complete read or error)")
+			case isReaderRead:
+				n++
+				ord++
+				key := fmt.Sprintf("%s:random-read#%d", FuncName(fn), ord)
+				// accepted only if the byte count is compared
+				cnt := resultOf(cl, 0)
+				tested := false
+				if cnt != nil {
+					for al := range aliasesForward(fn, cnt) {
+						if refs := al.Referrers(); refs != nil {
+							for _, r := range *refs {
+								if bo, isB := r.(*ssa.BinOp); isB && (bo.Op == token.LSS || bo.Op == token.NEQ || bo.Op == token.EQL || bo.Op == token.GEQ) {
+									tested = true
+								}
+							}
+						}
+					}
+				}
+				if tested {
+					c.OK(rule, key, c.Pos(cl.Pos()), "Reader.Read with its byte count tested")
+				} else {
+					c.Bad(rule, key, c.Pos(cl.Pos()), "a key or salt is filled with a bare Reader.Read: a short read (allowed by io.Reader) leaves the tail of the key zero while the call reports success — what that key seals can be opened by guessing a few bytes")
+				}
+			}
+		})
+	}
+	if n < 3 {
+		c.Bad(rule, "anchor:random-reads", "", fmt.Sprintf("reason=anchor-missing: only %d reads of randomness found", n))
 	}
 }
